@@ -16,6 +16,15 @@ def run(tier, wd):
                ["c1", "k1", "c2", "d1", "a1", "aa", "b1", "bb", "e1", "e2", "ee", "x", "-f", "--force", "-n=7", "--", "-g", "-"]
     trs, rows = tc.run_tree(rep, wd, binpath, alphabet, 4 if q else 5, ["continue"], "c04")
     nontriv = 0
+    if not q:
+        # random command trees (depth <= 3, fan-out <= 3, aliases) with a shorter bound
+        rt = T.random_trees(rnd, 8)
+        trs2, rows2 = tc.run_tree(rep, wd, binpath, alphabet, 3, sorted(set(c["policy"] for c, _ in rows)), "%s-random" % PROP.lower(), trees=rt)
+        off = len(trs)
+        trs = trs + trs2
+        for c, r in rows2:
+            c["ti"] += off
+        rows = rows + rows2
     kinds = {}
     for c, r in rows:
         if r.get("skipped"):
